@@ -261,7 +261,116 @@ def run(tier, seed):
                 case["impl"], case["model"] = back, mdec[i]
                 run.fail(case, "correspondence: reading through the logical schema differs from the model", kind="correspondence")
     positions_and_reader_annotations(run, cases, results, seed, tier)
+    shared_zone_family(run)
+    decimal_beside_floating_family(run)
     return run.finish()
+
+
+class _SeasonalZone(datetime.tzinfo):
+    """a zone whose offset depends on the date (one hour more from April to September), like every real zone with
+    daylight saving time; many datetimes share ONE such tzinfo object"""
+
+    def __init__(self, base_minutes):
+        self._base = datetime.timedelta(minutes=base_minutes)
+
+    def utcoffset(self, dt):
+        return self._base + self.dst(dt)
+
+    def dst(self, dt):
+        return datetime.timedelta(hours=1) if dt is not None and 4 <= dt.month <= 9 else datetime.timedelta(0)
+
+    def tzname(self, dt):
+        return "SEASONAL"
+
+
+def shared_zone_family(run):
+    """aware datetimes that share one tzinfo object whose offset changes with the date, written one after the other (in
+    one array, in consecutive records, in consecutive calls): each is stored as ITS instant"""
+    import io
+    import fastavro
+    epoch = datetime.datetime(1970, 1, 1, tzinfo=datetime.timezone.utc)
+    for base in (60, -300, 0, 330):
+        zone = _SeasonalZone(base)
+        stamps = [datetime.datetime(2021, 1, 15, 12, 0, 0, 250000, tzinfo=zone), datetime.datetime(2021, 7, 15, 12, 0, 0, 250000, tzinfo=zone),
+                  datetime.datetime(2021, 12, 1, 0, 0, tzinfo=zone), datetime.datetime(2021, 4, 1, 0, 30, tzinfo=zone),
+                  datetime.datetime(2021, 3, 31, 23, 30, tzinfo=zone)]
+        for unit, div in (("timestamp-millis", 1000), ("timestamp-micros", 1)):
+            t = {"type": "long", "logicalType": unit}
+            want = [((x - epoch) // datetime.timedelta(microseconds=1)) // div for x in stamps]
+            for shape in ("array", "records", "calls"):
+                case = {"logical": unit, "zone_base_minutes": base, "shape": shape, "values": [x.isoformat() for x in stamps], "tags": ["shared-zone-object", shape]}
+                run.count(case, True, ["shared-zone-object:" + shape])
+                try:
+                    if shape == "array":
+                        fo = io.BytesIO()
+                        fastavro.schemaless_writer(fo, {"type": "array", "items": t}, stamps)
+                        got = fastavro.schemaless_reader(io.BytesIO(fo.getvalue()), {"type": "array", "items": "long"})
+                    elif shape == "records":
+                        rs = {"type": "record", "name": "Ev", "fields": [{"name": "at", "type": t}]}
+                        fo = io.BytesIO()
+                        fastavro.writer(fo, rs, [{"at": x} for x in stamps])
+                        got = [((r_["at"] - epoch) // datetime.timedelta(microseconds=1)) // div for r_ in fastavro.reader(io.BytesIO(fo.getvalue()))]
+                    else:
+                        got = []
+                        for x in stamps:
+                            fo = io.BytesIO()
+                            fastavro.schemaless_writer(fo, t, x)
+                            got.append(fastavro.schemaless_reader(io.BytesIO(fo.getvalue()), "long"))
+                except Exception as e:  # noqa
+                    run.fail(case, "writing aware datetimes that share a tzinfo object raised %r" % (e,), kind="oracle")
+                    continue
+                if got != want:
+                    case["stored"], case["expected"] = got, want
+                    run.fail(case, "an aware datetime is not stored as its distance from the UTC epoch when the values before it carry the "
+                                   "same tzinfo object with another offset", kind="oracle")
+
+
+def decimal_beside_floating_family(run):
+    """a decimal branch beside a float / double branch in one union: a Decimal is written under the decimal branch and comes
+    back unchanged, or — when it does not fit the declared precision / scale — writing raises; it is never stored as a
+    floating-point number"""
+    import io
+    import json
+    import decimal
+    import fastavro
+    dec_bytes = {"type": "bytes", "logicalType": "decimal", "precision": 9, "scale": 2}
+    dec_fixed = {"type": "fixed", "name": "D8", "size": 8, "logicalType": "decimal", "precision": 9, "scale": 2}
+    values = {"fits": [decimal.Decimal("12.34"), decimal.Decimal("-0.5"), decimal.Decimal("0")],
+              "too-precise": [decimal.Decimal("1.2345")], "too-many-digits": [decimal.Decimal("12345678901.00")]}
+    for dt in (dec_bytes, dec_fixed):
+        for other in ("double", "float"):
+            for order in ("decimal-first", "floating-first"):
+                u = [dt, other] if order == "decimal-first" else [other, dt]
+                for shape in ("field", "array", "map"):
+                    if shape == "field":
+                        sch = {"type": "record", "name": "P", "fields": [{"name": "v", "type": u}]}
+                        wrap, unwrap = (lambda x: {"v": x}), (lambda r_: r_["v"])
+                    elif shape == "array":
+                        sch = {"type": "array", "items": u}
+                        wrap, unwrap = (lambda x: [x]), (lambda r_: r_[0])
+                    else:
+                        sch = {"type": "map", "values": u}
+                        wrap, unwrap = (lambda x: {"k": x}), (lambda r_: r_["k"])
+                    for vk, vals in values.items():
+                        for v in vals:
+                            case = {"schema": sch, "value": str(v), "value_kind": vk, "tags": ["decimal-beside-floating", order, shape]}
+                            run.count(case, True, ["decimal-beside-floating:" + order])
+                            try:
+                                fo = io.BytesIO()
+                                fastavro.schemaless_writer(fo, json.loads(json.dumps(sch)), wrap(v))
+                                back = unwrap(fastavro.schemaless_reader(io.BytesIO(fo.getvalue()), json.loads(json.dumps(sch))))
+                                res = ("ok", back)
+                            except Exception as e:  # noqa
+                                res = ("raised", exc_class(e))
+                            if vk == "fits":
+                                good = res[0] == "ok" and isinstance(res[1], decimal.Decimal) and res[1] == v
+                            else:
+                                good = res[0] == "raised"
+                            if not good:
+                                case["result"] = [res[0], repr(res[1])]
+                                run.fail(case, "a Decimal written to a union of a decimal and a floating-point branch %s"
+                                         % ("does not come back unchanged" if vk == "fits" else "is stored as a different number instead of raising"),
+                                         kind="oracle")
 
 
 def positions_and_reader_annotations(run, cases, results, seed, tier):
